@@ -429,8 +429,10 @@ func (m *Manager) AllocateNAT(privateIP net.IP) (*Allocation, error) {
 		return nil, fmt.Errorf("NAT pool exhausted: no available public IPs")
 	}
 
-	// Calculate port range for this subscriber (deterministic based on subscriber count)
-	portStart := uint16(m.portRangeStart + (selectedPool.Subscribers * m.portsPerSubscriber))
+	// Calculate port range for this subscriber: the lowest block on this public IP
+	// that no live allocation holds (the subscriber count alone is not a free block
+	// index once an earlier subscriber has been deallocated)
+	portStart := uint16(m.portRangeStart + (m.firstFreeBlock(poolIndex, selectedPool.Subscribers) * m.portsPerSubscriber))
 	portEnd := portStart + uint16(m.portsPerSubscriber) - 1
 
 	// Get or create subscriber ID
@@ -491,6 +493,27 @@ func (m *Manager) AllocateNAT(privateIP net.IP) (*Allocation, error) {
 	)
 
 	return allocation, nil
+}
+
+// firstFreeBlock returns the index of the lowest port block on the given pool
+// entry that is not held by a live allocation. fallback is returned if every
+// lower block is taken. Caller must hold poolMu.
+func (m *Manager) firstFreeBlock(poolIndex, fallback int) int {
+	m.allocationMu.RLock()
+	defer m.allocationMu.RUnlock()
+
+	used := make(map[int]bool)
+	for _, a := range m.allocations {
+		if a.PoolIndex == poolIndex {
+			used[(int(a.PortStart)-m.portRangeStart)/m.portsPerSubscriber] = true
+		}
+	}
+	for i := 0; i < fallback; i++ {
+		if !used[i] {
+			return i
+		}
+	}
+	return fallback
 }
 
 // DeallocateNAT removes NAT allocation for a subscriber
